@@ -27,7 +27,10 @@ Definition mkrate (r : Z * list Q * list (list Q)) : cxrate :=
   (fst (fst r), aff5 (snd (fst r)), map aff3 (snd r)).
 
 Definition tol : Q := pow2 (-40).
-Definition closeq (a b : Q) : bool := close tol 0 a b.
+(* absolute slack 2^-1000: a product that underflows in double (subnormal density or temperature used as a
+   guard boundary) is compared with the model's tiny exact value; irrelevant for every normal magnitude *)
+Definition abs_tol : Q := pow2 (-1000).
+Definition closeq (a b : Q) : bool := close tol abs_tol a b.
 
 Fixpoint all2 {A B} (p : A -> B -> bool) (l1 : list A) (l2 : list B) : bool :=
   match l1, l2 with
